@@ -41,6 +41,8 @@ import (
 
 	"github.com/celestiaorg/celestia-app/v9/pkg/appconsts"
 	appproof "github.com/celestiaorg/celestia-app/v9/pkg/proof"
+	gsmerkle "github.com/celestiaorg/go-square/merkle"
+	"github.com/celestiaorg/go-square/v4/inclusion"
 	libshare "github.com/celestiaorg/go-square/v4/share"
 	"github.com/celestiaorg/nmt"
 
@@ -475,6 +477,49 @@ func (w *world) applyCP(t []string, s, b int, v *cpPres) error {
 			}
 			v.proof = cloneCP(q)
 		}
+	case "forge":
+		// forge the digest of the first subtree root of the first / middle / last row of the blob (the node
+		// keeps its namespace range: still a well-formed NMT node) and present the commitment recomputed
+		// over the forged list
+		hp, err := w.honestCP(s, b)
+		if err != nil {
+			return err
+		}
+		n := len(hp.SubtreeRootProofs)
+		row := 0
+		switch t[1] {
+		case "middle":
+			row = n / 2
+		case "last":
+			row = n - 1
+		}
+		total := 0
+		for _, sp := range hp.SubtreeRootProofs {
+			total += sp.End() - sp.Start()
+		}
+		stw, err := inclusion.SubTreeWidth(total, appconsts.SubtreeRootThreshold)
+		if err != nil {
+			return err
+		}
+		idx := 0
+		for j := 0; j < row; j++ {
+			rg, err := nmt.ToLeafRanges(hp.SubtreeRootProofs[j].Start(), hp.SubtreeRootProofs[j].End(), stw)
+			if err != nil {
+				return err
+			}
+			idx += len(rg)
+		}
+		if idx < len(p.SubtreeRoots) {
+			r := cpBytes(p.SubtreeRoots[idx])
+			if len(r) >= 32 {
+				r[len(r)-1] ^= 0x01
+				r[len(r)-17] ^= 0x80
+			} else {
+				r = junkNode(2*libshare.NamespaceSize+32, w.rng)
+			}
+			p.SubtreeRoots[idx] = r
+		}
+		v.com = gsmerkle.HashFromByteSlices(p.SubtreeRoots)
 	default:
 		panic("unknown cp manipulation " + t[0])
 	}
